@@ -16,7 +16,7 @@ from ..worlds import relay
 ID = "C14"
 LEVEL = "exploration"
 CHUNK = 40
-BUDGET = {"quick": {"runs": 2500, "wall": 150}, "thorough": {"runs": 100000, "wall": 3000}}
+BUDGET = {"quick": {"runs": 2500, "wall": 150}, "thorough": {"runs": 100000, "wall": 1200}}
 RULE = ("actions map {save,query} -> random non-empty subsets of {a,r,w,s,x}; 1-4 role assignment calls "
         "(incl. reassignments, empty role strings, upper case) read back with get_auth_roles; 2-3 "
         "connections, anonymous or authenticated as one of 3 identities, each sending REQ and EVENT frames "
